@@ -322,6 +322,26 @@ def run_scenario(case, observer=None):
     return v, ops, impl, info
 
 
+def add_second(rng, c, nfaults=(1, 2)):
+    """turns a scenario into a two-iteration one: the first iteration is cut short (it ends in the middle of what its faults
+    started), reset_system, then a second iteration of full length with fresh line faults"""
+    ks = sorted(int(k) for k in c["faults"])
+    c["n_inc_first"] = max(1, min(c["n_inc"], (ks[-1] if ks else 1) + rng.randint(0, 2)))
+    ps = net.build(c["spec"])
+    lines = [l.name for l in ps.lines if not l.is_backup]
+    f2 = {}
+    for _ in range(rng.randint(*nfaults)):
+        f2.setdefault(str(rng.randint(1, 5)), []).append([rng.choice(lines), str(rng.choice([F(1), F(3, 2), F(2)]))])
+    c["second"] = {"faults": f2, "n_inc": c["n_inc"]}
+    return c
+
+
+def last_iteration(info):
+    """the records of the last iteration of a run (everything after the last reset)"""
+    cut = max([i for i, r in enumerate(info) if r["phase"] == "reset"] + [-1])
+    return info[cut + 1:]
+
+
 def gen_scenario(rng, max_lines=6, allow_mg=True, nfaults=(1, 4), n_inc=None, ctrl="manual", nfeed=None, T=None, overlap=True):
     spec = net.rand_feeder_spec(rng, max_lines=max_lines, ctrl=ctrl, allow_mg=allow_mg, nfeed=nfeed)
     if T is not None:
